@@ -29,6 +29,11 @@ EXTRA = [
     "Conditional(Gt(a, 0), -x, x)", "-abs(y)*x", "Gt(x, 0)*x - x*x",
     "Conditional(Eq(x, 0.5), 1, -x)", "Conditional(Eq(x, y), 0, y - x)", "Conditional(Eq(floor(4*x)/4, 0.25), -1, -x)",
     "Conditional(Eq(a, 0.5), -x, x)", "Gt(x, 0) + Gt(y, 0) - x", "Conditional(Eq(x, 1.0), 0, -x)",
+    # min / max / clamp / window idioms (one operand per column, the other shared)
+    "Conditional(Le(x, a), x, a) - y", "Conditional(Ge(x, 0), x, 0) - x*y", "-Conditional(Lt(x, b), x, b)", "Conditional(Ge(x, y), x, y) - x",
+    "Conditional(Le(y, 1.5), y, 1.5)*x", "Conditional(And(Ge(x, a), Le(x, b)), -x, y)", "Conditional(And(Gt(x, 0.5), Lt(x, 1.5)), 1, 0) - x",
+    "Conditional(And(Ge(t, a), Le(t, b)), -x, 0)", "Conditional(Or(Lt(x, a), Gt(x, b)), -x, y)", "Conditional(Le(a, x), a, x) + Conditional(Ge(b, y), b, y)",
+    "Conditional(Lt(x, 0), 0, Conditional(Gt(x, 1), 1, x)) - y",
 ]
 HEADER = "parameters(a=0.5, b=2.0)\nstates(x=1.0, y=2.0)\n"
 SCHEMES = ["explicit_euler", "generalized_rush_larsen", "hybrid_rush_larsen"]
